@@ -12,7 +12,7 @@ from mc import core, ir, pipeline, program
 PROP = "C10"
 FWS = ["base", "pydantic", "sqlmodel", "attrs", "dataclasses"]
 POOL = [f"s{i:02d}" for i in range(18)]
-LEN_CLASSES = {"short": None, "len19": "y" * 19, "len20": "y" * 20, "len21": "y" * 21}
+LEN_CLASSES = {"short": None, "len19": "y" * 19, "len20": "y" * 20, "len21": "y" * 21, "len0": "", "blank": " "}
 CO = ["none", "null", "absent", "pseudo_int", "pseudo_mix"]
 ESC_SYMBOLS = ['"', "'", "\\", "\n", ",", "é", "a", "\U0001F600", "\u2028", "\x85"]
 
@@ -38,6 +38,13 @@ def _cases(tier):
         yield {"k": "esc", "strings": [s]}
         if len(s) <= 2:
             yield {"k": "esc", "strings": [s], "nested": True}
+    for s in ("", " ", "\t"):
+        # the empty and the blank string are plain strings like any other
+        yield {"k": "esc", "strings": [s]}
+        yield {"k": "esc", "strings": [s], "nested": True}
+        yield {"k": "esc", "strings": [s, "a"]}
+        yield {"k": "esc", "strings": ["a", s], "lists": [[0, 1]]}
+        yield {"k": "esc", "strings": ["a", s], "lists": [[0], [1]]}
     sub = strs[:8] + strs[8:72:4][:16]
     for a, b in itertools.combinations(sub, 2):
         yield {"k": "esc", "strings": [a, b]}
